@@ -10,7 +10,8 @@ for p in "$@"; do
   echo "== $p"
   # the evidence committed under evidence/ describes runs on the unchanged tree: keep it aside while a seeded change is applied
   cp "evidence/$p.json" "/tmp/seedtest.$$.$p.evidence" 2>/dev/null
-  ./jv check "$p" --tier quick 2>&1 | grep -E "^(VIOLATION|KNOWN-FINDING)" | head -5 > /tmp/seedtest.$$.out
+  # a check that ends in a Python traceback has decided nothing: say so instead of looking as if the change was missed
+  ./jv check "$p" --tier quick 2>&1 | grep -E "^(VIOLATION|KNOWN-FINDING|Traceback|[A-Za-z]*Error:)" | head -5 > /tmp/seedtest.$$.out
   cat /tmp/seedtest.$$.out
   # what each replay says (the replay files are overwritten by later runs)
   sed -n 's/^VIOLATION .*replay=\([^ ]*\).*/\1/p' /tmp/seedtest.$$.out | while read r; do
